@@ -49,6 +49,8 @@ def inOnly : Step → Bool
   | .chkSock => true
   | .chkClosed => true
   | .chkClosing => true
+  | .ldClosing => true
+  | .chkBoth => true
   | _ => false
 
 /-- the lock discipline of a program (every suffix of a disciplined program is disciplined):
@@ -131,17 +133,17 @@ theorem headW2_toRelease (r : List Step) : headW2 (toRelease r) = false := by
 
 theorem compile_disc (v : Variant) (cfg : Cfg) (call : Call) : disc (compile v cfg call) = true := by
   cases call <;>
-    simp only [compile, sendData, closeBody, writeProg] <;>
+    simp only [compile, sendData, closeBody, writeProg, checks] <;>
     (repeat' split) <;> simp [disc, holds, noWrite, isWrite, headW2, outOnly, inOnly]
 
 theorem compile_holds (v : Variant) (cfg : Cfg) (call : Call) : holds (compile v cfg call) = false := by
   cases call <;>
-    simp only [compile, sendData, closeBody, writeProg] <;>
+    simp only [compile, sendData, closeBody, writeProg, checks] <;>
     (repeat' split) <;> simp [holds]
 
 theorem compile_headW2 (v : Variant) (cfg : Cfg) (call : Call) : headW2 (compile v cfg call) = false := by
   cases call <;>
-    simp only [compile, sendData, closeBody, writeProg] <;>
+    simp only [compile, sendData, closeBody, writeProg, checks] <;>
     (repeat' split) <;> simp [headW2]
 
 theorem alt_disc (v : Variant) (a : Alt) : disc (altSteps v a) = true := by
@@ -162,24 +164,25 @@ theorem alt_noWrite (v : Variant) (a : Alt) : noWrite (altSteps v a) = true := b
 inductive Moves (v : Variant) : Step → List Step → List Step → Prop
   | next (st r) : Moves v st r r
   | ret (st r) : (st = .retIfClosed ∨ st = .retIfClosing) → Moves v st r (afterClose r)
-  | fail (st r) : (st = .chkSock ∨ st = .chkClosed ∨ st = .chkClosing) → Moves v st r (toRelease r)
+  | fail (st r) : (st = .chkSock ∨ st = .chkClosed ∨ st = .chkClosing ∨ st = .chkBoth) → Moves v st r (toRelease r)
   | alt (a r) : Moves v (.brIfClosing a) r (altSteps v a)
 
 theorem exec_moves (v : Variant) (t : Tid) (st : Step) (r : List Step) (sh : Shared) (c : Cur) :
     Moves v st r (exec v t st r sh c).2.rest := by
-  cases st <;> simp only [exec] <;> (try split) <;>
+  cases st <;> simp only [exec] <;> (repeat' split) <;>
     first
     | exact Moves.next _ _
     | exact Moves.ret _ _ (Or.inl rfl)
     | exact Moves.ret _ _ (Or.inr rfl)
     | exact Moves.fail _ _ (Or.inl rfl)
     | exact Moves.fail _ _ (Or.inr (Or.inl rfl))
-    | exact Moves.fail _ _ (Or.inr (Or.inr rfl))
+    | exact Moves.fail _ _ (Or.inr (Or.inr (Or.inl rfl)))
+    | exact Moves.fail _ _ (Or.inr (Or.inr (Or.inr rfl)))
     | exact Moves.alt _ _
 
 theorem moves_eq {v : Variant} {st : Step} {r r' : List Step} (m : Moves v st r r') :
     r' = r ∨ ((st = .retIfClosed ∨ st = .retIfClosing) ∧ r' = afterClose r) ∨
-      ((st = .chkSock ∨ st = .chkClosed ∨ st = .chkClosing) ∧ r' = toRelease r) ∨
+      ((st = .chkSock ∨ st = .chkClosed ∨ st = .chkClosing ∨ st = .chkBoth) ∧ r' = toRelease r) ∨
       (∃ a, st = .brIfClosing a ∧ r' = altSteps v a) := by
   cases m with
   | next => exact Or.inl rfl
@@ -220,10 +223,10 @@ theorem moves_holds {v : Variant} {st : Step} {r r' : List Step} (m : Moves v st
       simp only [disc, outOnly, Bool.and_eq_true] at d <;> simp_all [holdsAfter]
   | fail _ _ h =>
     have : holds r = true := by
-      rcases h with h | h | h <;> subst h <;>
+      rcases h with h | h | h | h <;> subst h <;>
         simp only [disc, outOnly, inOnly, Bool.and_eq_true] at d <;> simp_all
     rw [holds_toRelease r this]
-    rcases h with h | h | h <;> subst h <;> simp [holdsAfter, this]
+    rcases h with h | h | h | h <;> subst h <;> simp [holdsAfter, this]
   | alt a _ =>
     rw [alt_holds]
     simp only [disc, outOnly, Bool.and_eq_true] at d
@@ -347,7 +350,7 @@ theorem exec_lock (v : Variant) (t : Tid) (st : Step) (r : List Step) (sh : Shar
       | .acquire => some t
       | .release => none
       | _ => sh.lock := by
-  cases st <;> simp only [exec] <;> (try split) <;> rfl
+  cases st <;> simp only [exec] <;> (repeat' split) <;> rfl
 
 theorem lockInv_init (v : Variant) (cfg : Cfg) (progs : Tid → List Call) : LockInv v cfg (init progs) := by
   constructor
@@ -424,15 +427,15 @@ theorem exec_wire (v : Variant) (t : Tid) (st : Step) (r : List Step) (sh : Shar
       | .write1 f => sh.wire ++ [⟨t, c.idx, false, descOf f c⟩]
       | .write2 f => sh.wire ++ [⟨t, c.idx, true, descOf f c⟩]
       | _ => sh.wire := by
-  cases st <;> simp only [exec] <;> (try split) <;> rfl
+  cases st <;> simp only [exec] <;> (repeat' split) <;> rfl
 
 theorem exec_idx (v : Variant) (t : Tid) (st : Step) (r : List Step) (sh : Shared) (c : Cur) :
     (exec v t st r sh c).2.idx = c.idx := by
-  cases st <;> simp only [exec] <;> (try split) <;> rfl
+  cases st <;> simp only [exec] <;> (repeat' split) <;> rfl
 
 theorem exec_zout (v : Variant) (t : Tid) (st : Step) (r : List Step) (sh : Shared) (c : Cur)
     (h : st ≠ .flush) : (exec v t st r sh c).2.zout = c.zout := by
-  cases st <;> simp only [exec] <;> (try split) <;> first | rfl | exact absurd rfl h
+  cases st <;> simp only [exec] <;> (repeat' split) <;> first | rfl | exact absurd rfl h
 
 theorem descOf_congr (f : FrameSrc) (c c' : Cur) (h : c'.zout = c.zout) : descOf f c' = descOf f c := by
   simp [descOf, h]
@@ -518,7 +521,7 @@ theorem wireInv_step (v : Variant) (cfg : Cfg) (s : State) (t : Tid) (L : LockIn
         rcases moves_eq m with h | ⟨h, _⟩ | ⟨h, _⟩ | ⟨a, h, _⟩
         · exact h
         · rcases h with h | h <;> cases h
-        · rcases h with h | h | h <;> cases h
+        · rcases h with h | h | h | h <;> cases h
         · cases h
       have hbefore : s.sh.wire = pairs (frames s.sh.wire) := by
         apply W.whole
@@ -666,7 +669,7 @@ def isW2 : Step → Bool
 
 theorem exec_wrote (v : Variant) (t : Tid) (st : Step) (r : List Step) (sh : Shared) (c : Cur) :
     (exec v t st r sh c).2.wrote = (isW2 st || c.wrote) := by
-  cases st <;> simp only [exec] <;> (try split) <;> rfl
+  cases st <;> simp only [exec] <;> (repeat' split) <;> rfl
 
 theorem exec_w2 (v : Variant) (t : Tid) (f : FrameSrc) (r : List Step) (sh : Shared) (c : Cur) :
     (exec v t (.write2 f) r sh c).1.wire = sh.wire ++ [⟨t, c.idx, true, descOf f c⟩] ∧
@@ -769,7 +772,7 @@ theorem exec_not_w2 (v : Variant) (t : Tid) (st : Step) (r : List Step) (sh : Sh
   cases st with
   | write2 f => cases h
   | write1 f => exact ⟨fun u => idxs_append_other _ _ u (Or.inr rfl), rfl⟩
-  | _ => refine ⟨fun u => ?_, ?_⟩ <;> simp only [exec] <;> (try split) <;> rfl
+  | _ => refine ⟨fun u => ?_, ?_⟩ <;> simp only [exec] <;> (repeat' split) <;> rfl
 
 theorem msgInv_step (v : Variant) (cfg : Cfg) (s : State) (t : Tid) (L : LockInv v cfg s)
     (M : MsgInv v cfg s) : MsgInv v cfg (step v cfg s t) := by
@@ -960,14 +963,14 @@ theorem descFor_descOf (cfg : Cfg) (call : Call) (c : Cur) : descFor cfg call (d
 theorem compile_srcOk (v : Variant) (cfg : Cfg) (call : Call) :
     srcOk (call.frame cfg) call.msg (compile v cfg call) = true := by
   cases call <;>
-    simp only [compile, sendData, closeBody, writeProg, Call.frame, Call.src, Call.op, Call.msg] <;>
+    simp only [compile, sendData, closeBody, writeProg, checks, Call.frame, Call.src, Call.op, Call.msg] <;>
     (repeat' split) <;> simp_all [srcOk]
 
 theorem compile_send (v : Variant) (cfg : Cfg) (call : Call) (h : call.isSend = true) :
     noJump (compile v cfg call) = true ∧ hasW2 (compile v cfg call) = true := by
   cases call <;> simp only [Call.isSend] at h <;> try cases h
   all_goals
-    simp only [compile, sendData, writeProg]
+    simp only [compile, sendData, writeProg, checks]
     (repeat' split) <;> simp [noJump, hasW2, isJump, isW2]
 
 theorem alt_srcOk (v : Variant) (a : Alt) (f0 : FrameSrc) (m : Bytes) : srcOk f0 m (altSteps v a) = true := by
@@ -1002,7 +1005,7 @@ theorem noWrite_toRelease (r : List Step) (d : disc r = true) : noWrite (toRelea
 theorem exec_err (v : Variant) (t : Tid) (st : Step) (r : List Step) (sh : Shared) (c : Cur) :
     ((exec v t st r sh c).2.err = c.err ∧ ((exec v t st r sh c).2.rest = r ∨ isJump st = true)) ∨
     ((exec v t st r sh c).2.err ≠ none ∧ inOnly st = true ∧ (exec v t st r sh c).2.rest = toRelease r) := by
-  cases st <;> simp only [exec] <;> (try split) <;> simp [isJump, inOnly]
+  cases st <;> simp only [exec] <;> (repeat' split) <;> simp [isJump, inOnly]
 
 /-- per-thread facts about the call in progress -/
 def CurOk (cfg : Cfg) (th : Thread) (c : Cur) : Prop :=
